@@ -1,7 +1,457 @@
 package main
 
-import "verif/harness/h"
+import (
+	"math"
+	"strconv"
+	"strings"
+
+	"verif/harness/h"
+)
+
+const (
+	maxS8b = uint64(1)<<60 - 1
+	minI64 = uint64(1) << 63
+	maxI64 = uint64(1)<<63 - 1
+	maxU64 = ^uint64(0)
+	uvnan  = uint64(0x7FF8000000000001)
+)
+
+var selTable = [][2]int{{240, 0}, {120, 0}, {60, 1}, {30, 2}, {20, 3}, {15, 4}, {12, 5}, {10, 6}, {8, 7}, {7, 8}, {6, 10}, {5, 12}, {4, 15}, {3, 20}, {2, 30}, {1, 60}}
+
+type gctx struct {
+	r    *h.Rand
+	b    []string
+	emit func([]string)
+	tier string
+}
+
+func (g *gctx) add(s string) {
+	g.b = append(g.b, s)
+	if len(g.b) >= 200 {
+		g.flush()
+	}
+}
+func (g *gctx) flush() {
+	if len(g.b) > 0 {
+		g.emit(g.b)
+		g.b = nil
+	}
+}
+
+func rep(v uint64, n int) []uint64 {
+	out := make([]uint64, n)
+	for i := range out {
+		out[i] = v
+	}
+	return out
+}
+func cat(xs ...[]uint64) []uint64 {
+	var out []uint64
+	for _, x := range xs {
+		out = append(out, x...)
+	}
+	return out
+}
+
+// random length: mostly short, sometimes around the simple8b run lengths, rarely > 1000
+func (g *gctx) length() int {
+	r := g.r
+	switch {
+	case r.Chance(0.03):
+		return 1000 + r.Intn(600)
+	case r.Chance(0.10):
+		return h.Pick(r, []int{118, 119, 120, 121, 122, 238, 239, 240, 241, 242, 243, 300, 361, 480, 481})
+	case r.Chance(0.3):
+		return r.Intn(4)
+	default:
+		return r.Intn(70)
+	}
+}
+
+// a uint64 of a random bit width (so that every simple8b selector is hit)
+func (g *gctx) bitsVal(maxBits int) uint64 {
+	w := g.r.Intn(maxBits + 1)
+	if w == 0 {
+		return 0
+	}
+	v := g.r.Uint64()
+	if w < 64 {
+		v &= (uint64(1) << uint(w)) - 1
+	}
+	return v
+}
+
+// ---------------------------------------------------------------- simple8b inputs
+
+func (g *gctx) s8bInputs() [][]uint64 {
+	r := g.r
+	var out [][]uint64
+	out = append(out, nil, []uint64{0}, []uint64{1}, []uint64{maxS8b}, []uint64{maxS8b + 1}, []uint64{maxU64},
+		[]uint64{1, 2, 3, maxS8b + 1}, []uint64{maxS8b + 1, 1, 2}, cat(rep(1, 240), []uint64{maxS8b + 1}))
+	for _, sb := range selTable {
+		n, bits := sb[0], uint(sb[1])
+		if bits == 0 {
+			for _, k := range []int{n - 1, n, n + 1} {
+				out = append(out, rep(1, k), cat(rep(1, k), []uint64{2}), cat(rep(1, k), []uint64{0, 1}), cat([]uint64{3}, rep(1, k)))
+			}
+			out = append(out, cat(rep(1, n-1), []uint64{0}, rep(1, n)), cat(rep(1, n), rep(1, n), []uint64{7}))
+			continue
+		}
+		top := uint64(1)<<bits - 1
+		for _, k := range []int{n - 1, n, n + 1, 2 * n} {
+			out = append(out, rep(top, k), rep(0, k))
+			x := rep(top, k)
+			if k > 0 {
+				x[r.Intn(k)] = top + 1 // one value needs one more bit
+			}
+			out = append(out, x)
+			y := make([]uint64, k)
+			for i := range y {
+				y[i] = r.Uint64() & top
+			}
+			out = append(out, y)
+		}
+	}
+	return out
+}
+
+func (g *gctx) randU64s(maxBits int) []uint64 {
+	n := g.length()
+	out := make([]uint64, n)
+	mode := g.r.Intn(5)
+	w := g.r.Intn(maxBits + 1)
+	for i := range out {
+		switch mode {
+		case 0: // fixed width
+			out[i] = g.bitsVal(w)
+		case 1: // mostly ones with occasional others (selector 0/1 boundaries)
+			out[i] = 1
+			if g.r.Chance(0.01) {
+				out[i] = g.bitsVal(6)
+			}
+		case 2: // mixed widths
+			out[i] = g.bitsVal(maxBits)
+		case 3: // small with rare big
+			out[i] = g.bitsVal(4)
+			if g.r.Chance(0.03) {
+				out[i] = g.bitsVal(maxBits)
+			}
+		default:
+			out[i] = uint64(g.r.Intn(3))
+		}
+	}
+	return out
+}
+
+// ---------------------------------------------------------------- integer-like sequences (bit patterns)
+
+func (g *gctx) intSeq() []uint64 {
+	r := g.r
+	n := g.length()
+	out := make([]uint64, n)
+	start := h.Pick(r, []uint64{0, 1, 5, maxI64, minI64, maxU64, minI64 + 1, 1 << 60, r.Uint64()})
+	mode := r.Intn(8)
+	step := h.Pick(r, []uint64{0, 1, maxU64 /* -1 */, 2, 10, 1000, 1 << 59, 1 << 60, 1 << 62, minI64, r.Uint64()})
+	cur := start
+	for i := range out {
+		switch mode {
+		case 0, 1: // constant step (RLE), wrapping
+			out[i] = cur
+			cur += step
+		case 2: // constant step with one glitch
+			out[i] = cur
+			cur += step
+			if r.Chance(0.02) {
+				cur += uint64(r.Intn(3))
+			}
+		case 3: // small random walk
+			out[i] = cur
+			cur += uint64(int64(r.Intn(41)) - 20)
+		case 4: // random 64-bit
+			out[i] = r.Uint64()
+		case 5: // extremes
+			out[i] = h.Pick(r, []uint64{0, 1, maxI64, minI64, maxU64, maxI64 - 1, minI64 + 1})
+		case 6: // decreasing by one (zigzag delta 1: runs of ones for simple8b) with rare glitches
+			out[i] = cur
+			cur--
+			if r.Chance(0.005) {
+				cur -= uint64(r.Intn(50))
+			}
+		default: // random widths of deltas
+			out[i] = cur
+			d := g.bitsVal(62)
+			if r.Bool() {
+				cur += d
+			} else {
+				cur -= d
+			}
+		}
+	}
+	return out
+}
+
+func (g *gctx) timeSeq() []uint64 {
+	r := g.r
+	n := g.length()
+	out := make([]uint64, n)
+	p10 := uint64(1)
+	for k := r.Intn(15); k > 0; k-- {
+		p10 *= 10
+	}
+	start := h.Pick(r, []uint64{0, 1, 1500000000000000000, maxI64, minI64, maxU64 - 5, uint64(r.Range(0, 2000000000)) * 1000000000})
+	mode := r.Intn(7)
+	cur := start
+	for i := range out {
+		out[i] = cur
+		switch mode {
+		case 0: // regular interval
+			cur += p10 * 3
+		case 1: // regular multiples of a power of ten, irregular factors
+			cur += p10 * uint64(1+r.Intn(9))
+		case 2: // mostly one interval (= the divisor: packs as ones), rare other
+			cur += p10
+			if r.Chance(0.01) {
+				cur += p10 * uint64(r.Intn(5))
+			}
+		case 3: // one odd delta breaks the divisor
+			cur += p10 * uint64(1+r.Intn(3))
+			if r.Chance(0.02) {
+				cur += uint64(r.Intn(7))
+			}
+		case 4: // unsorted / random
+			cur = r.Uint64()
+		case 5: // huge deltas (raw encoding)
+			cur += uint64(1)<<60 + uint64(r.Intn(3))
+		default:
+			cur += g.bitsVal(40)
+		}
+	}
+	return out
+}
+
+var floatSpecials = []uint64{
+	0, 1 << 63, // +0 -0
+	1, 0x000FFFFFFFFFFFFF, 0x8000000000000001, // subnormals
+	0x0010000000000000,                         // min normal
+	0x7FEFFFFFFFFFFFFF, 0xFFEFFFFFFFFFFFFF, // +-max
+	0x7FF0000000000000, 0xFFF0000000000000, // +-Inf
+	0x3FF0000000000000, 0xBFF0000000000000, 0x4000000000000000, 0x3FB999999999999A,
+}
+
+var nanPatterns = []uint64{uvnan, 0x7FF8000000000000, 0x7FF0000000000001, 0xFFF8000000000000, 0x7FFFFFFFFFFFFFFF, 0xFFF0000000000123}
+
+func (g *gctx) floatSeq() []uint64 {
+	r := g.r
+	n := g.length()
+	out := make([]uint64, n)
+	mode := r.Intn(7)
+	cur := math.Float64frombits(h.Pick(r, []uint64{0x3FF0000000000000, 0x4059000000000000, 0x40C3880000000000}))
+	for i := range out {
+		switch mode {
+		case 0: // specials
+			out[i] = h.Pick(r, floatSpecials)
+		case 1: // equal runs
+			if i > 0 && r.Chance(0.8) {
+				out[i] = out[i-1]
+			} else {
+				out[i] = h.Pick(r, floatSpecials)
+			}
+		case 2: // slowly varying measurements (window reuse)
+			cur += float64(r.Intn(21)-10) / 8
+			out[i] = math.Float64bits(cur)
+		case 3: // integers as floats
+			out[i] = math.Float64bits(float64(r.Intn(1000)))
+		case 4: // random bit patterns that are not NaN
+			v := r.Uint64()
+			if math.IsNaN(math.Float64frombits(v)) {
+				v &^= 1 << 62
+			}
+			out[i] = v
+		case 5: // few differing low bits
+			out[i] = 0x400921FB54442D18 ^ g.bitsVal(r.Intn(53))
+		default: // differing high bits only
+			out[i] = (g.bitsVal(11) << 52) & 0x7FE0000000000000
+		}
+	}
+	return out
+}
+
+func (g *gctx) boolSeq() []bool {
+	n := g.length()
+	out := make([]bool, n)
+	p := h.Pick(g.r, []float64{0, 1, 0.5, 0.1, 0.9})
+	for i := range out {
+		out[i] = g.r.Chance(p)
+	}
+	return out
+}
+
+func (g *gctx) strSeq() []string {
+	r := g.r
+	n := g.length()
+	if n > 300 {
+		n = 300 + r.Intn(900)
+	}
+	out := make([]string, n)
+	for i := range out {
+		var l int
+		switch {
+		case r.Chance(0.2):
+			l = 0
+		case r.Chance(0.03):
+			l = h.Pick(r, []int{127, 128, 129, 300, 16383, 16384, 20000})
+			if n > 50 {
+				l = 127 + r.Intn(3)
+			}
+		default:
+			l = r.Intn(12)
+		}
+		b := make([]byte, l)
+		for j := range b {
+			if r.Chance(0.7) {
+				b[j] = byte('a' + r.Intn(4))
+			} else {
+				b[j] = byte(r.Intn(256))
+			}
+		}
+		out[i] = string(b)
+	}
+	return out
+}
+
+func allBoolLists(maxLen int) [][]bool {
+	var out [][]bool
+	for l := 0; l <= maxLen; l++ {
+		for m := 0; m < 1<<l; m++ {
+			x := make([]bool, l)
+			for i := range x {
+				x[i] = m&(1<<i) != 0
+			}
+			out = append(out, x)
+		}
+	}
+	return out
+}
+
+func (g *gctx) valsOf(kind byte, n int) vals {
+	fit := func(u []uint64) []uint64 {
+		for len(u) < n {
+			u = append(u, u[len(u)%max(1, len(u)):]...)
+			if len(u) == 0 {
+				u = append(u, 7)
+			}
+		}
+		return u[:n]
+	}
+	switch kind {
+	case 'f':
+		return vals{kind: kind, u: fit(g.floatSeq())}
+	case 'i', 'u':
+		return vals{kind: kind, u: fit(g.intSeq())}
+	case 'b':
+		b := g.boolSeq()
+		for len(b) < n {
+			b = append(b, g.r.Bool())
+		}
+		return vals{kind: kind, b: b[:n]}
+	default:
+		s := g.strSeq()
+		for len(s) < n {
+			s = append(s, strconv.Itoa(len(s)))
+		}
+		return vals{kind: kind, s: s[:n]}
+	}
+}
 
 func gen(r *h.Rand, tier string, emit func([]string)) {
-	emit([]string{"zz 0"})
+	g := &gctx{r: r, emit: emit, tier: tier}
+	scale := 1
+	if tier == "thorough" {
+		scale = 25
+	}
+
+	// zigzag: boundaries and random
+	for _, x := range []uint64{0, 1, 2, 3, maxI64 - 1, maxI64, minI64, minI64 + 1, maxU64 - 1, maxU64, 1 << 62, 1<<62 - 1, 3 << 62} {
+		g.add("zz " + strconv.FormatUint(x, 10))
+	}
+	for i := 0; i < 300*scale; i++ {
+		g.add("zz " + strconv.FormatUint(g.bitsVal(64), 10))
+	}
+
+	// simple8b: every selector boundary, then random
+	for _, in := range g.s8bInputs() {
+		g.add("s8b " + u64s(in))
+	}
+	for i := 0; i < 2500*scale; i++ {
+		g.add("s8b " + u64s(g.randU64s(h.Pick(r, []int{8, 20, 60, 60, 61, 64}))))
+	}
+
+	// value codecs
+	for _, in := range g.s8bInputs() { // as integers / timestamps too: prefix sums turn them into deltas
+		acc := uint64(0)
+		ps := make([]uint64, len(in))
+		dn := make([]uint64, len(in))
+		for i, d := range in {
+			acc += d
+			ps[i] = acc
+			dn[i] = -acc // decreasing: zigzag(-1) = 1
+		}
+		g.add("c t " + u64s(ps))
+		g.add("c i " + u64s(dn))
+		g.add("c u " + u64s(ps))
+	}
+	for i := 0; i < 2500*scale; i++ {
+		g.add("c i " + u64s(g.intSeq()))
+		g.add("c u " + u64s(g.intSeq()))
+		g.add("c t " + u64s(g.timeSeq()))
+		g.add("c f " + u64s(g.floatSeq()))
+		g.add("c b " + bools(g.boolSeq()))
+		if i%3 == 0 {
+			g.add("c s " + strs(g.strSeq()))
+		}
+	}
+	for _, b := range allBoolLists(10) {
+		g.add("c b " + bools(b))
+	}
+	for i, s := range floatSpecials { // every ordered pair of special floats
+		g.add("c f " + u64s([]uint64{s}))
+		for _, t := range floatSpecials {
+			g.add("c f " + u64s([]uint64{s, t}))
+			g.add("c f " + u64s([]uint64{floatSpecials[(i+3)%len(floatSpecials)], s, t, s}))
+		}
+	}
+	// NaN of every flavour: both encoders refuse (documented limitation; recorded finding)
+	for _, nan := range nanPatterns {
+		g.add("c f " + u64s([]uint64{nan}))
+		g.add("c f " + u64s([]uint64{0x3FF0000000000000, nan, 0x4000000000000000}))
+		g.add("blk f 1,2 " + u64s([]uint64{0x3FF0000000000000, nan}))
+	}
+	// +Inf and -Inf in one batch (the repaired FloatArrayEncodeAll)
+	pinf, ninf := uint64(0x7FF0000000000000), uint64(0xFFF0000000000000)
+	g.add("c f " + u64s([]uint64{0, pinf, ninf}))
+	g.add("c f " + u64s([]uint64{0x7FEFFFFFFFFFFFFF, 0x7FEFFFFFFFFFFFFF, 0x7FEFFFFFFFFFFFFF, ninf}))
+	g.add("blk f 1,2,3 " + u64s([]uint64{ninf, ninf, pinf}))
+
+	// blocks
+	g.add("blk i - -")
+	g.add("blk f - -")
+	g.add("blk s - -")
+	for i := 0; i < 2000*scale; i++ {
+		kind := "iufbs"[r.Intn(5)]
+		ts := g.timeSeq()
+		if r.Chance(0.1) && len(ts) == 0 {
+			ts = []uint64{r.Uint64()}
+		}
+		v := g.valsOf(kind, len(ts))
+		g.add("blk " + string(kind) + " " + u64s(ts) + " " + v.String())
+	}
+
+	// malformed
+	g.add("c x 1,2")
+	g.add("blk i 1,2 1")
+	g.add("zz 18446744073709551616")
+	g.add("s8b 1,,2")
+	g.add("c b 012")
+	g.add(strings.TrimSpace("frob 1"))
+	g.flush()
 }
